@@ -38,8 +38,9 @@ func Parse(regex string) (*AST, error) {
 	m := new(mappers)
 	p := parser.New(m)
 
+	// The whole input must be consumed: a remaining suffix means the regular expression is not valid.
 	out, ok := p.Parse(regex)
-	if !ok {
+	if !ok || out.Remaining != nil {
 		return nil, fmt.Errorf("invalid regular expression: %s", regex)
 	}
 
